@@ -589,3 +589,35 @@ theorem readLine_spec {fs : FS} (L : Nat) (ipath : List Name) (tbl : Table) :
                   exact ⟨arg, pre, p, post, e1, e2, e3, ⟨b, t, bad, e4⟩, by simpa using hundef⟩
 
 end Shk.Reader
+
+namespace Shk.Reader
+open Shk.Preproc
+
+/-- "EOF encountered while expecting line continuation" is only said of a file whose last physical line ends in a
+backslash-newline with nothing after it: no unterminated remainder, every gathered line ended in a backslash -/
+theorem gather_eofCont_truthful (tail : Bytes) (bad : Bool) :
+    ∀ (rest : List Bytes) (acc : Bytes) (k0 : Nat) {k : Nat},
+      gather tail bad acc rest k0 = .eofCont k → tail = [] ∧ ∀ l ∈ rest, endsBackslash l = true := by
+  intro rest
+  induction rest with
+  | nil =>
+    intro acc k0 k h
+    unfold gather at h
+    split at h
+    · cases h
+    · split at h
+      · rename_i hacc; exact ⟨hacc.2, fun l hl => by cases hl⟩
+      · cases h
+  | cons l rest ih =>
+    intro acc k0 k h
+    unfold gather at h
+    split at h
+    · rename_i hl
+      obtain ⟨h1, h2⟩ := ih _ _ h
+      exact ⟨h1, fun x hx => by
+        rcases List.mem_cons.mp hx with rfl | hx
+        · exact hl
+        · exact h2 x hx⟩
+    · cases h
+
+end Shk.Reader
